@@ -133,8 +133,8 @@ TEMPLATES = [
     ("KSI_AggregationRespPdu", [0x01, 0x02, 0x1f], [], "quick"),
     ("KSI_ExtendRespPdu", [0x01, 0x02, 0x1f], [], "quick"),
     ("KSI_PublicationsFile", [0x0701, 0x0702, 0x0703, 0x0704], ["publicationsfile"], "quick"),
-    ("KSI_AggregationPdu", [0x01, 0x202, 0x1f], [], "thorough"),
-    ("KSI_ExtendPdu", [0x01, 0x302, 0x1f], [], "thorough"),
+    ("KSI_AggregationPdu", [0x01, 0x202, 0x1f], [], "quick"),
+    ("KSI_ExtendPdu", [0x01, 0x302, 0x1f], [], "quick"),
     ("KSI_AggregationReqPdu", [0x01, 0x02, 0x1f], [], "thorough"),
     ("KSI_ExtendReqPdu", [0x01, 0x02, 0x1f], [], "thorough"),
     ("KSI_PublicationRecord", [0x10, 0x09, 0x0a], [], "thorough"),
